@@ -35,6 +35,8 @@ KEY_GROUPS = [
 
 
 def key_of(name, reason, form=None):
+    if form and "AH with an absolute address" in str(form.get("opcodeString", "")):
+        return "mov-ah-moffs"
     if "gather/scatter without a mask register" in reason:
         return "evex-gather-scatter-without-mask"
     if "{z} with a memory destination" in reason:
@@ -295,6 +297,14 @@ def build_sweep(kept, rng, tier):
         for kk in ("kmovw", "kmovd", "kmovq", "kmovb"):
             emits.append("%d %x 16 %s modmr - R:k:1 R:k:2" % (m, BASE, kk))
             meta.append({"name": kk, "opcodeString": "probe"})
+        # AH shares the register id of AL: the accumulator-only moffs forms must not be chosen for it
+        for tail in ("mov - - R:gpbhi:0 M:1:none:0:none:0:0:1000:0:0:0", "mov - - M:1:none:0:none:0:0:1000:0:0:0 R:gpbhi:0",
+                     "mov - - R:gpbhi:0 M:1:none:0:none:0:0:1000:5:0:1", "mov - - R:gpbhi:1 M:1:none:0:none:0:0:1000:0:0:0") + \
+                (("mov - - R:gpbhi:0 M:1:none:0:none:0:0:123456789a:0:0:0", "mov - - M:1:none:0:none:0:0:123456789a:0:0:0 R:gpbhi:0",
+                  "movabs - - R:gpbhi:0 M:1:none:0:none:0:0:123456789a:0:0:0", "movabs - - M:1:none:0:none:0:0:123456789a:0:0:0 R:gpbhi:0")
+                 if m == 64 else ()):
+            emits.append("%d %x 16 %s" % (m, BASE, tail))
+            meta.append({"name": tail.split()[0], "opcodeString": "probe (AH with an absolute address)"})
     return emits, meta
 
 
